@@ -321,7 +321,7 @@ def success_deps(e):
     return out
 
 
-def sz345(F, R):
+def sz345(F, R, roundtrip=True):
     save = F.fn("Sodg", "save")
     load = F.fn("Sodg", "load")
     if save is None or load is None:
@@ -400,6 +400,15 @@ def sz345(F, R):
     else:
         R.bad("SZ4", "SZ4/Sodg::load/input-not-the-whole-file", de.where(),
               "load() does not decode exactly the complete content of the file at `path`", {"input": show(da, load), "path": show(ra, load)})
+    # once the image has been decoded, load() succeeds: no Err is produced on a path on which the decode call returned Ok
+    for site, kind, st in (load.sites() if roundtrip else ()):
+        is_err = kind == "stmt" and st["k"] == "assign" and st["rv"]["k"] == "aggregate" and st["rv"].get("variant") == "Err"
+        is_res = kind == "term" and st["k"] == "call" and st["callee"].get("name") == "from_residual"
+        if not (is_err or is_res):
+            continue
+        if any(x[0] == "in" and x[2] <= frozenset(["Continue", "Ok"]) and mentions_call(x[1], de) for x in load.facts_at(site)):
+            R.bad("SZ4", "SZ4/Sodg::load/err-after-successful-decode", load.where(site),
+                  "load() can fail although the image was decoded: a graph that save() wrote is rejected")
     oks, others = ok_values(load)
     if len(oks) != 1:
         R.bad("SZ4", "SZ4/Sodg::load/ok-returns", load.where(), "cannot establish SZ4: load() has %d success results" % len(oks))
